@@ -255,3 +255,16 @@ package httpgen
 //@ emitted func selectFloatExample(fieldPath string, defaultValue float64) (r float64)
 //@   ensures default_when_none: !(inDom(fieldExamples, fieldPath) && len(fieldExamples[fieldPath]) > 0) ==> r == defaultValue
 //@   ensures example_taken: inDom(fieldExamples, fieldPath) && len(fieldExamples[fieldPath]) > 0 && (forall k int :: 0 <= k && k < len(fieldExamples[fieldPath]) ==> result1(strconv.ParseFloat(fieldExamples[fieldPath][k], 64)) == nil) ==> (exists k int :: 0 <= k && k < len(fieldExamples[fieldPath]) && r == result0(strconv.ParseFloat(fieldExamples[fieldPath][k], 64)))
+
+// ---- int64_encoding=NUMBER codec of one message of the extraction schema (C05): each annotated field is
+// written as the JSON number of its own value (in its own type), omitted when zero; the rest is protojson's ----
+
+//@ emitted func (x *Counter) MarshalJSON() (b []byte, err error)
+//@   modifies *
+//@   at-call protojson.Marshal requires base_is_the_message: x != nil
+//@   at-call json.Marshal requires signed_field: isType(arg0, int64) ==> asType(arg0, int64) == x.N && x.N != 0
+//@   at-call json.Marshal requires unsigned_field: isType(arg0, uint64) ==> asType(arg0, uint64) == x.U && x.U != 0
+//@   at-call json.Marshal requires only_these: isType(arg0, int64) || isType(arg0, uint64) || isType(arg0, map[string]json.RawMessage)
+//@   at-call json.Marshal requires final_map_n: isType(arg0, map[string]json.RawMessage) ==> (x.N != 0 ==> inDom(asType(arg0, map[string]json.RawMessage), "n") && asType(arg0, map[string]json.RawMessage)["n"] == result0(json.Marshal(x.N))) && (x.N == 0 ==> !inDom(asType(arg0, map[string]json.RawMessage), "n"))
+//@   at-call json.Marshal requires final_map_u: isType(arg0, map[string]json.RawMessage) ==> (x.U != 0 ==> inDom(asType(arg0, map[string]json.RawMessage), "u") && asType(arg0, map[string]json.RawMessage)["u"] == result0(json.Marshal(x.U))) && (x.U == 0 ==> !inDom(asType(arg0, map[string]json.RawMessage), "u"))
+//@   ensures nil_message: x == nil ==> err == nil
